@@ -423,11 +423,12 @@ def c12(ctx):
     replay_cmd(ctx, binp, "replay-tw", tvec, "tw", {"result", "panic"})
     lib_traces(ctx, "sub", "find,rfind", "block", 1200 if ctx.quick else 10000, "blocks", forces=("avx2",))
     ctx.evaluations += sum_exec(ctx, ["mm_exec", "pp_scaled_exec", "pp_real_exec", "prefilter_exec"])
+    extra = tlaps_supplement(ctx, "PackedPairFindUnbounded", ("Basic", "OccInRange", "InitInv", "NextInv", "Safety"))
     return C.finish(ctx, "model_checking",
                     "MC_TwoWay / MC_SubBlocks1 / MC_PackedPair: TLC steps the loop-level models of Two-Way (forward/reverse, small/large period, every outer iteration), "
                     "Rabin-Karp (forward/reverse, scaled hash width), Shift-Or (scaled mask) and the generic packed-pair find over ALL needles x haystacks over 2- and "
                     "3-letter alphabets within the bounds; every pair is replayed (1:1 and lifted) on twoway/rabinkarp/shiftor/packedpair finders; packed-pair vectors "
-                    "are replayed on the real generic code at the model width (load sequence must agree) and padded on SSE2/AVX2")
+                    "are replayed on the real generic code at the model width (load sequence must agree) and padded on SSE2/AVX2", extra_cov=extra)
 
 
 def c11(ctx):
